@@ -155,6 +155,7 @@ LANGUAGES = Contract(
           "statement (translated by pyvc.regex; full-match semantics, no DOTALL)",
     assumptions=["A-re-2"],
 )
+LANGUAGES.observable_only = True   # a regex deviation counts only if a witness word misbehaves on the real router
 
 
 def register(reg):
